@@ -112,7 +112,7 @@ def rotation_matrix_to_rodrigues_vector(r, calculate_jacobian=False):
         if c > 0:
             r_out = np.zeros((3, 1))
         else:
-            rx, ry, rz = np.clip(np.sqrt((np.diag(r) + 1) * 0.5), 0, np.inf)
+            rx, ry, rz = np.sqrt(np.clip((np.diag(r) + 1) * 0.5, 0, np.inf))
             if r[0, 1] < 0:
                 ry = -ry
             if r[0, 2] < 0:
